@@ -58,6 +58,17 @@ fn is_ambiguous(s: &str) -> bool {
         return true;
     }
 
+    // A plain `<<` key is a merge key, and `---` / `...` (alone or followed by a blank) at the
+    // start of a line are document markers: such strings must be quoted.
+    if s == "<<" {
+        return true;
+    }
+    if let Some(rest) = s.strip_prefix("---").or_else(|| s.strip_prefix("...")) {
+        if rest.is_empty() || rest.starts_with(' ') || rest.starts_with('\t') {
+            return true;
+        }
+    }
+
     // Special float tokens (ASCII case-insensitive) should not be plain, to avoid
     // being interpreted as floats during parse. Quote these as strings.
     // Accept common forms with optional leading sign and optional leading dot.
